@@ -480,21 +480,43 @@ def check_cases(ctx, pid, cases, workdir, sanitize, memory_only=False):
             return FNS[c["fn"]].get("tagged", True) and L.tag(mo) not in ("ok", None)
         ia = [i for i, (c, mo) in enumerate(zip(cases, mouts)) if not unsafe(c, mo)]
         ib = [i for i, (c, mo) in enumerate(zip(cases, mouts)) if unsafe(c, mo)]
-        # an ASan report is fatal (one worker restart each): of the cases whose model verdict is OOB only a fixed-size,
-        # evenly spread subset is executed; UB verdicts (UBSan does not halt) all run
-        oob = [i for i in ib if L.tag(mouts[i]) == "oob"]
-        keep = 120 if ctx.quick() else 300
-        if len(oob) > keep:
-            step = len(oob) / float(keep)
-            chosen = {oob[int(k * step)] for k in range(keep)}
-            ib = [i for i in ib if L.tag(mouts[i]) != "oob" or i in chosen]
-            ctx.count("model verdict OOB, not executed under ASan (budget)", len(oob) - len(chosen))
+        # an ASan report is fatal and a restart of the sanitised interpreter costs ~3 s: the cases expected to die
+        # (model verdict OOB, delta widths >= 57) run in a batch of their own, of which only a fixed-size, evenly
+        # spread subset is executed; UB verdicts (UBSan does not halt) all run
+        def fatal(i):
+            return L.tag(mouts[i]) == "oob" or (cases[i]["fn"] == "delta_unpack" and cases[i]["meta"]["max_width"] >= 57)
+        ic = [i for i in ib if fatal(i)]
+        ib = [i for i in ib if not fatal(i)]
+        keep = 24 if ctx.quick() else 240
+        if len(ic) > keep:
+            # stratified: every (function, verdict, capacity class / width class) group keeps its share
+            groups = {}
+            for i in ic:
+                m = cases[i].get("meta", {})
+                key = (cases[i]["fn"], L.tag(mouts[i]), m.get("cap_class"), m.get("max_width", 0) >= 57, m.get("count", 1) == 0,
+                       bool(m.get("truncated_run")), bool(m.get("empty_run")))
+                groups.setdefault(key, []).append(i)
+            per = max(1, keep // len(groups))
+            chosen = set()
+            for key in sorted(groups, key=str):
+                g = groups[key]
+                step = len(g) / float(min(per, len(g)))
+                chosen |= {g[int(k * step)] for k in range(min(per, len(g)))}
+            chosen = sorted(chosen)
+            ctx.count("expected-fatal cases not executed under ASan (budget)", len(ic) - len(chosen))
+            ic = chosen
         real = [["skipped"]] * len(cases)
-        for part, tagname in ((ia, "safe"), (ib, "unsafe")):
-            rs = L.run_real([worker_case(cases[i]) for i in part], os.path.join(workdir, tagname), sanitize=True, nproc=nproc,
-                            max_crashes=15 if tagname == "safe" else 400)
-            for i, r in zip(part, rs):
-                real[i] = r
+        from concurrent.futures import ThreadPoolExecutor
+
+        def part_job(arg):
+            part, tagname = arg
+            return part, L.run_real([worker_case(cases[i]) for i in part], os.path.join(workdir, tagname), sanitize=True,
+                                    nproc=nproc, max_crashes=15 if tagname == "safe" else 400,
+                                    chunk=200 if tagname != "fatal" else 6)
+        with ThreadPoolExecutor(3) as ex:
+            for part, rs in ex.map(part_job, ((ia, "safe"), (ib, "unsafe"), (ic, "fatal"))):
+                for i, r in zip(part, rs):
+                    real[i] = r
     else:
         real = L.run_real([worker_case(c) for c in cases], workdir, sanitize=False, nproc=nproc, max_crashes=150)
     souts = L.pq_batch([FNS[c["fn"]]["spec"](c) for c in cases], nproc=4)
